@@ -85,6 +85,26 @@ int ares_parse_aaaa_reply(const unsigned char *abuf, int alen,
     if (status != ARES_SUCCESS && status != ARES_ENODATA) {
       goto fail; /* LCOV_EXCL_LINE: DefensiveCoding */
     }
+  } else if (status == ARES_SUCCESS) {
+    /* Same verdict as with a hostent: no address of this family and no alias
+     * means there is no data, whatever else the answer section held */
+    const struct ares_addrinfo_node  *node;
+    const struct ares_addrinfo_cname *cname;
+    ares_bool_t                       have_data = ARES_FALSE;
+
+    for (node = ai.nodes; node != NULL && !have_data; node = node->ai_next) {
+      if (node->ai_family == AF_INET6) {
+        have_data = ARES_TRUE;
+      }
+    }
+    for (cname = ai.cnames; cname != NULL && !have_data; cname = cname->next) {
+      if (cname->alias != NULL) {
+        have_data = ARES_TRUE;
+      }
+    }
+    if (!have_data) {
+      status = ARES_ENODATA;
+    }
   }
 
   if (addrttls != NULL && req_naddrttls) {
